@@ -151,6 +151,29 @@ class ModuleHandle(object):
         return self
 
     @classmethod
+    def _fresh_cache_ctx(cls):
+        """
+        Context manager inside which `ModuleHandle` s are neither taken from
+        nor added to the per-name cache.
+
+        What a handle remembers (``filename``, ``text``, ``exports``,
+        ``exists``) is the answer for the ``sys.path`` in force when it was
+        first asked.  Code that asks while ``sys.path`` is temporarily modified
+        must not see answers remembered for another ``sys.path``, nor leave
+        its own behind.
+        """
+        from contextlib import contextmanager
+        @contextmanager
+        def ctx():
+            saved = cls._cls_cache
+            cls._cls_cache = {}
+            try:
+                yield
+            finally:
+                cls._cls_cache = saved
+        return ctx()
+
+    @classmethod
     def _from_module(cls, module):
         if not isinstance(module, types.ModuleType):
             raise TypeError
